@@ -2693,14 +2693,20 @@ class Processor:
                                 replacement_node)
             elif isinstance(data, (CommentedSeq, list)):
                 for idx, item in enumerate(data):
-                    if data is parent and item is reference_node:
-                        data[idx] = replacement_node
+                    if item is reference_node:
+                        if (hasattr(item, "anchor") or
+                                (data is parent and idx == target_idx)):
+                            data[idx] = replacement_node
                     else:
                         recurse(item, parent, parentref, reference_node,
                                 replacement_node)
             elif isinstance(data, (CommentedSet, set)):
-                data.discard(reference_node)
-                data.add(replacement_node)
+                if data is parent or any(
+                    ele is reference_node and hasattr(ele, "anchor")
+                    for ele in data
+                ):
+                    data.discard(reference_node)
+                    data.add(replacement_node)
             elif isinstance(data, OrderedDict):
                 # Manual key (re)ordering is necessary and YMKs are not
                 # supported.
@@ -2743,6 +2749,7 @@ class Processor:
                                 replacement_node)
 
         change_node = None
+        target_idx = parentref
         if isinstance(parent, (set, CommentedSet)):
             for ele in parent:
                 if ele == parentref:
@@ -2750,6 +2757,9 @@ class Processor:
                     break
         else:
             change_node = parent[parentref]
+            if (isinstance(parent, list) and isinstance(parentref, int)
+                    and parentref < 0):
+                target_idx = len(parent) + parentref
         new_node = Nodes.make_new_node(
             change_node, value, value_format, tag=value_tag)
 
